@@ -654,7 +654,8 @@ func replay(c *vlib.Check) {
 		fmt.Printf("  %d. %-34s implementation: %-28s specification: %s\n", i+1, lab, implStr(next, ierr), specStr(sn, sok))
 		if (ierr == nil) != sok && sp != nil {
 			if i == len(steps)-1 {
-				c.Violation(f.Key, "replayed: "+f.What, f.Replay)
+				c.Violation(f.Key, f.What, map[string]any{"proto": f.Replay.Proto, "reading": f.Replay.Reading,
+					"trace": f.Replay.Trace, "message": f.Replay.Message})
 			}
 			break
 		}
@@ -663,9 +664,12 @@ func replay(c *vlib.Check) {
 		}
 		cur, ss = next, sn
 	}
-	c.Set("states", 0)
+	c.Set("states", len(steps)+1) // pairs visited along the replayed trace
 	c.Set("transitions", len(steps))
 	c.Set("traces_validated_against_impl", 1)
+	c.Set("replay_of", f.Key)
+	c.Assume("replay of one recorded trace; specification tables as in a normal run (DESIGN.md Appendix A)")
+	c.Sample(map[string]any{"configuration": p.ID(), "trace_executed_on_implementation": steps})
 	c.Finish()
 }
 
